@@ -203,7 +203,9 @@ def check_property(prop, cfg, tier="quick", seed=0):
                 except Exception: pass
                 extra_cov.setdefault("verus_results", {})[uname] = js.get("verification-results")
         # kani / extra engines
-        for eng in cfg.get("engines", []):
+        # thorough tier: additionally replays, on the real code, every history that once exposed a defect of this property (regression) and the
+        # bounded executions that otherwise serve as fallbacks
+        for eng in cfg.get("engines", []) + (cfg.get("thorough_engines", []) if tier == "thorough" else []):
             r = eng(prop, tier, work)
             for o, info in r["obligations"].items():
                 obligations[o] = info
